@@ -1,7 +1,7 @@
 \* C14: shapes up to 3 towers x 3 steps, up to 4 workers
 CONSTANTS
   MaxNT = 3 MaxNS = 3 MaxNW = 4
-  Strategies = {"towers", "time", "both"}
+  Strategies = {"towers", "time", "both", "serial", "cli"}
   ParentThreadSet = {1, 4}
   Collect = "position" SliceStep = "NS" WorkerInit = TRUE
 INIT Init
